@@ -2,7 +2,8 @@
 """Builds /verif/seeded/<id>/ from the mutation agents' deliverables and re-runs the sanity checks and the
 property checks against each change (through eval_mutant.sh). Usage: build_seeded.py [Cxx-mN ...]"""
 import json, os, re, shutil, subprocess, sys
-SRC = "/tmp/wt"
+SRC = os.environ.get("SEEDED_SRC", "/tmp/wt")
+TAG = os.environ.get("SEEDED_TAG", "m")  # id = <prop>-<TAG><n>
 NEEDS = {
  "C01-m1": ("uquo shortens a long dividend and loses the sticky bit of the dropped tail", "Quo with a dividend at least one 19-digit word longer than prec/19+1+len(y) words whose kept high part divides exactly, the only non-zero digit being in the dropped tail; wrong under directed modes, AwayFromZero and ToNearestEven ties"),
  "C01-m2": ("new uadd fast path skips the small addend when the exponent gap == precision (should be > precision)", "Add/Sub of like-signed magnitudes, ToNearestEven/ToNearestAway, exponent gap exactly equal to the precision, larger operand's mantissa fits the precision in whole words, small operand's leading digit >= 5"),
@@ -50,7 +51,7 @@ def main():
             continue
         prop = pid[:-4]
         for n in (1, 2):
-            sid = "%s-m%d" % (prop, n)
+            sid = "%s-%s%d" % (prop, TAG, n)
             if want and sid not in want:
                 continue
             d, demo = os.path.join(SRC, pid, "mutant%d.diff" % n), os.path.join(SRC, pid, "demo%d_test.go" % n)
@@ -74,6 +75,9 @@ def main():
                 if m:
                     checks[m.group(1)] = {"exit": int(m.group(2)), "caught": m.group(2) == "1", "first_lines": m.group(3)[:500]}
             what, needs = NEEDS.get(sid, ("", ""))
+            if not what and os.path.exists(os.path.join(SRC, pid, "README.md")):
+                shutil.copy(os.path.join(SRC, pid, "README.md"), os.path.join(out, "AGENT_README.md"))
+                what, needs = "see AGENT_README.md (the sub-agent's own description)", "see AGENT_README.md"
             meta = {
                 "id": sid, "breaks_property": prop, "change": what, "needs_to_manifest": needs,
                 "written_by": "independent sub-agent given only the property text and a scratch worktree",
